@@ -93,6 +93,34 @@ impl Clone for LP {
         LP::new(v)
     }
 }
+/// Payload WITHOUT drop glue (no destructor anywhere): a crate may not skip any ordering for such
+/// values either. Its destruction is not observable; the release of its memory is.
+pub struct LN {
+    magic: u64,
+    pub id: u32,
+    cell: loom::cell::UnsafeCell<u32>,
+}
+unsafe impl Send for LN {}
+unsafe impl Sync for LN {}
+impl LN {
+    pub fn new(v: u32) -> LN {
+        let id = NEXT_ID.with(|c| {
+            let v = c.get();
+            c.set(v + 1);
+            v
+        });
+        LN { magic: MAGIC, id, cell: suspend(|| loom::cell::UnsafeCell::new(v)) }
+    }
+    pub fn read(&self) -> (bool, u32) {
+        let magic = unsafe { std::ptr::read_volatile(&self.magic) };
+        if magic != MAGIC || arena::is_freed(self as *const _ as usize) {
+            fail(ORDER, format!("thread {} read a plain payload whose memory has been released (magic {:#x})", arena::tid(), magic));
+            return (false, 0);
+        }
+        let v = suspend(|| guarded(ORDER | WRITE, "plain payload read concurrent with a write", || self.cell.with(|p| unsafe { *p })));
+        (true, v.unwrap_or(u32::MAX))
+    }
+}
 #[allow(dead_code)]
 pub struct LQ(u64, u64, u64);
 
@@ -101,6 +129,9 @@ pub type Thin = ThinArc<LP, u32>;
 
 #[derive(Clone, Copy, Debug, PartialEq, Eq, Hash, PartialOrd, Ord)]
 pub enum Kind {
+    /// Arc / ThinArc of a payload without drop glue
+    N,
+    TN,
     /// no handle of its own: a reference to the main thread's Arc (the count stays 1 until it clones)
     B,
     A,
@@ -111,6 +142,8 @@ pub enum Kind {
     F,
 }
 pub enum LH {
+    N(Arc<LN>),
+    TN(ThinArc<LN, u32>),
     B(*const Arc<LP>),
     A(Arc<LP>),
     O(OffsetArc<LP>),
@@ -125,6 +158,8 @@ unsafe impl Send for LH {}
 impl LH {
     pub fn kind(&self) -> Kind {
         match self {
+            LH::N(_) => Kind::N,
+            LH::TN(_) => Kind::TN,
             LH::B(_) => Kind::B,
             LH::A(_) => Kind::A,
             LH::O(_) => Kind::O,
@@ -136,6 +171,8 @@ impl LH {
     }
     fn read(&self) -> (bool, u32) {
         match self {
+            LH::N(x) => x.read(),
+            LH::TN(x) => x.header.header.read(),
             LH::B(p) => unsafe { (**p).read() },
             LH::A(x) => x.read(),
             LH::O(x) => x.read(),
@@ -171,6 +208,8 @@ impl LH {
     }
     fn clone_same(&self) -> LH {
         match self {
+            LH::N(x) => LH::N(x.clone()),
+            LH::TN(x) => LH::TN(x.clone()),
             LH::B(p) => LH::A(unsafe { (**p).clone() }),
             LH::A(x) => LH::A(x.clone()),
             LH::O(x) => LH::O(x.clone()),
@@ -183,6 +222,8 @@ impl LH {
     /// clone through a borrow path, yielding a plain (fat) Arc
     fn clone_arc(&self) -> LH {
         match self {
+            LH::N(x) => LH::N(x.borrow_arc().clone_arc()),
+            LH::TN(x) => LH::TN(Arc::into_thin(x.with_arc(|a| a.clone()))),
             LH::B(p) => LH::A(unsafe { (**p).borrow_arc().clone_arc() }),
             LH::A(x) => LH::A(x.borrow_arc().clone_arc()),
             LH::O(x) => LH::A(x.clone_arc()),
@@ -195,6 +236,8 @@ impl LH {
     /// count-neutral conversion to the partner representation
     fn convert(self) -> LH {
         match self {
+            LH::N(x) => LH::N(Arc::from_raw_offset(Arc::into_raw_offset(x))),
+            LH::TN(x) => LH::TN(Arc::into_thin(Arc::from_thin(x))),
             LH::B(p) => LH::B(p),
             LH::A(x) => LH::O(Arc::into_raw_offset(x)),
             LH::O(x) => LH::A(Arc::from_raw_offset(x)),
@@ -484,6 +527,20 @@ pub fn run_program(me: u32, p: &Program, first: LH, is_writer: bool, rules: Rule
 /// Build the shared value and one handle per thread (plus the main thread's own).
 /// Returns (main handle, thread handles, original payload id, block address).
 pub fn setup(kinds: &[Kind]) -> (LH, Vec<LH>, u32, usize) {
+    if kinds.iter().any(|k| matches!(k, Kind::N)) {
+        let base = cap(|| Arc::new(LN::new(0)));
+        let (id, block) = (base.id, base.heap_ptr() as usize);
+        let _ = Arc::count(&base);
+        let hs = kinds.iter().map(|_| cap(|| LH::N(base.clone()))).collect();
+        return (LH::N(base), hs, id, block);
+    }
+    if kinds.iter().any(|k| matches!(k, Kind::TN)) {
+        let base: ThinArc<LN, u32> = cap(|| ThinArc::from_header_and_iter(LN::new(0), [7u32, 9].into_iter()));
+        let (id, block) = (base.header.header.id, base.heap_ptr() as usize);
+        let _ = ThinArc::strong_count(&base);
+        let hs = kinds.iter().map(|_| cap(|| LH::TN(base.clone()))).collect();
+        return (LH::TN(base), hs, id, block);
+    }
     let thin = kinds.iter().any(|k| matches!(k, Kind::T | Kind::F));
     if thin {
         let base: Fat = cap(|| Arc::from_header_and_iter(HeaderWithLength::new(LP::new(0), 2), [7u32, 9].into_iter()));
@@ -551,13 +608,13 @@ pub fn main_thread_part(h: LH, main_reads: bool, rules: Rules) {
 }
 
 /// End-of-execution oracle. Returns the outcome signature of this execution.
-pub fn final_oracle(orig_id: u32, block: usize) -> String {
+pub fn final_oracle(orig_id: u32, block: usize, plain: bool) -> String {
     let drops = suspend(|| DROPS.with(|d| d.borrow().clone()));
     let rel = suspend(|| bridge::RELEASES.with(|d| d.borrow().clone()));
     let recv = suspend(|| RECEIVED.with(|d| d.borrow().clone()));
     let facts = suspend(|| FACTS.with(|d| d.borrow().clone()));
     let od: Vec<_> = drops.iter().filter(|d| d.1 == orig_id).collect();
-    if od.len() != 1 {
+    if od.len() != 1 && !plain {
         fail(CONSERVE, format!("the shared value was destroyed {} times (by threads {:?}); must be exactly once", od.len(), od.iter().map(|d| d.0).collect::<Vec<_>>()));
     }
     let or: Vec<_> = rel.iter().filter(|r| r.1 == block).collect();
@@ -583,7 +640,7 @@ pub fn final_oracle(orig_id: u32, block: usize) -> String {
     ids.sort();
     let n = NEXT_ID.with(|c| c.get()) - 1;
     let want: Vec<u32> = (1..=n).collect();
-    if ids != want {
+    if ids != want && !plain {
         fail(CONSERVE, format!("values created 1..={}, destructor log {:?}", n, ids));
     }
     let live = arena::live_blocks();
@@ -593,6 +650,6 @@ pub fn final_oracle(orig_id: u32, block: usize) -> String {
     for e in arena::errors_since(0) {
         fail(CONSERVE, format!("allocator error {:?}", e));
     }
-    let destroyer = od.first().map(|d| d.0 as i64).unwrap_or(-1);
+    let destroyer = if plain { or.first().map(|d| d.0 as i64).unwrap_or(-1) } else { od.first().map(|d| d.0 as i64).unwrap_or(-1) };
     format!("destroyer=t{} moved_out={:?} {}", destroyer, orecv.first().map(|r| r.0), facts.join(" "))
 }
